@@ -24,7 +24,7 @@ FLOORS = {'quick': {'enum:numbering': 6000, 'enum:limit': 5000, 'random': 2400, 
           'thorough': {'enum:numbering': 6000, 'enum:limit': 28000, 'random': 75000, 'random:limit': 150000}}
 REQUIRED_MONITORS = ['oracle:copies-and-counters', 'oracle:copies-direct-entry', 'probe:repeat-guard-monotone', 'probe:repeater-stack-balanced']
 
-SITE_KINDS = ['name', 'class', 'id', 'attr', 'qattr', 'attrname', 'text', 'eattr', 'ntext']
+SITE_KINDS = ['name', 'class', 'id', 'attr', 'qattr', 'attrname', 'text', 'eattr', 'ntext', 'mail']
 
 
 def describe(tier):
@@ -75,6 +75,8 @@ def head(n):
             parts += '[%s=v]' % site
         elif kind == 'eattr':
             parts += '[e%d={%s}]' % (tag, site)     # an expression value keeps its braces in EVERY copy
+        elif kind == 'mail':
+            parts += '[e%d="%s@x.io"]' % (tag, site)       # an `@` that is no modifier stays text (numbered mail addresses)
         elif kind == 'ntext':
             text += '{a{%s}b{{c}}}' % site       # numbering inside balanced inner braces (`li{{{item$}}}` for a template language)
         else:
@@ -216,6 +218,9 @@ class Mon:
                 val, rev = spec[0], spec[1]
                 if len(spec) > 2 and spec[2] == 'eattr' and not str(a[2].get('raw:' + tag, '')).startswith('{'):
                     ctx.violation('expression-value-lost-its-braces', case, {'site': 'k' + tag, 'element_mark': e[1], 'printed': a[2].get('raw:' + tag), 'output': r[1][:300]})
+                    return
+                if len(spec) > 2 and spec[2] == 'mail' and '@x.io' not in str(a[2].get('raw:' + tag, '')):
+                    ctx.violation('text-after-counter-lost', case, {'site': 'k' + tag, 'element_mark': e[1], 'printed': a[2].get('raw:' + tag), 'output': r[1][:300]})
                     return
                 if truncated and rev:
                     continue
